@@ -29,7 +29,7 @@ structure Bases (p : SedovFuncsO3.P) (v : ℝ) : Prop where
 theorem l_dv (p : SedovFuncsO3.P) (v : ℝ) (B : Bases p v) :
     SedovFuncsO3.L1.l_fun_dv p v = SedovFuncsO3.L1.l_fun p v * Alg.tL p.a0 p.a1 p.a2 p.c_val p.xg2 v := by
   obtain ⟨hs1, hs2, hs4, hy⟩ := B
-  simp only [epv_deriv, epv_leaf, Alg.tL]
+  simp only [epv_semi_deriv, epv_semi_leaf, Alg.tL]
   have e4 : 2 - p.xg2 * v = 2 * (1 - 1 / 2 * p.xg2 * v) := by ring
   rw [e4]
   have h1 := hs1.ne'; have h2 := hs2.ne'; have h3' := hs4.ne'
@@ -47,7 +47,7 @@ theorem f_dv (p : SedovFuncsO3.P) (v : ℝ) (B : Bases p v) :
     SedovFuncsO3.L1.f_fun_dv p v = p.a_val * v * SedovFuncsO3.L1.l_fun p v
       * (1 / v + Alg.tL p.a0 p.a1 p.a2 p.c_val p.xg2 v) := by
   obtain ⟨hs1, hs2, hs4, hy⟩ := B
-  simp only [epv_deriv, epv_leaf, Alg.tL]
+  simp only [epv_semi_deriv, epv_semi_leaf, Alg.tL]
   have e4 : 2 - p.xg2 * v = 2 * (1 - 1 / 2 * p.xg2 * v) := by ring
   rw [e4]
   have h1 := hs1.ne'; have h2 := hs2.ne'; have h3' := hs4.ne'
@@ -65,7 +65,7 @@ theorem g_dv (p : SedovFuncsO3.P) (γ v : ℝ) (B : Bases p v) (hgp : p.gamp1 = 
     SedovFuncsO3.L1.g_fun_dv p v = SedovFuncsO3.L1.g_fun p v
       * Alg.tG p.a0 p.a2 p.a3 (1 / (2 * p.e_val)) p.a_val p.c_val (1 / 2 * p.gamp1) p.xg2 γ p.geometry p.omega v := by
   obtain ⟨hs1, hs2, hs4, hy⟩ := B
-  simp only [epv_deriv, epv_leaf, Alg.tG, Alg.dpp3]
+  simp only [epv_semi_deriv, epv_semi_leaf, Alg.tG, Alg.dpp3]
   have e4 : 2 - p.xg2 * v = 2 * (1 - 1 / 2 * p.xg2 * v) := by ring
   rw [e4, ← hg]
   have e5 : p.gamma + 1 = p.gamp1 := by rw [hg, hgp]
@@ -93,7 +93,7 @@ theorem h_dv (p : SedovFuncsO3.P) (γ v : ℝ) (B : Bases p v) (hgm : p.gamm1 = 
     SedovFuncsO3.L1.h_fun_dv p v = SedovFuncsO3.L1.h_fun p v
       * Alg.tH p.a0 (1 / (2 * p.e_val)) p.a_val (1 / 2 * p.gamp1) p.xg2 γ p.geometry v := by
   obtain ⟨hs1, hs2, hs4, hy⟩ := B
-  simp only [epv_deriv, epv_leaf, Alg.tH, Alg.dpp3]
+  simp only [epv_semi_deriv, epv_semi_leaf, Alg.tH, Alg.dpp3]
   have e4 : 2 - p.xg2 * v = 2 * (1 - 1 / 2 * p.xg2 * v) := by ring
   rw [e4, ← hg]
   have e5 : p.gamma + 1 = p.gamp1 := by rw [hg, hgp]
@@ -118,15 +118,23 @@ theorem hasDerivAt (p : SedovFuncsO3.P) (v : ℝ) (B : Bases p v) :
     HasDerivAt (SedovFuncsO3.L1.l_fun p) (SedovFuncsO3.L1.l_fun_dv p v) v ∧
     HasDerivAt (SedovFuncsO3.L1.f_fun p) (SedovFuncsO3.L1.f_fun_dv p v) v ∧
     HasDerivAt (SedovFuncsO3.L1.g_fun p) (SedovFuncsO3.L1.g_fun_dv p v) v ∧
-    HasDerivAt (SedovFuncsO3.L1.h_fun p) (SedovFuncsO3.L1.h_fun_dv p v) v :=
-  ⟨SedovFuncsO3.L1.l_fun_hasDerivAt_v p v B.x1 B.x2 B.x4, SedovFuncsO3.L1.f_fun_hasDerivAt_v p v B.x1 B.x2 B.x4,
-   SedovFuncsO3.L1.g_fun_hasDerivAt_v p v B.x1 B.x2 B.x4 B.y, SedovFuncsO3.L1.h_fun_hasDerivAt_v p v B.x1 B.x4 B.y⟩
+    HasDerivAt (SedovFuncsO3.L1.h_fun p) (SedovFuncsO3.L1.h_fun_dv p v) v := by
+  -- the certificates' side conditions (their number, order and form follow the Python) are discharged from `B`
+  have hx1 := B.x1
+  have hx2 := B.x2
+  have hx4 := B.x4
+  have hy := B.y
+  refine ⟨?_, ?_, ?_, ?_⟩
+  · epv_hydro_cert SedovFuncsO3.L1.l_fun_hasDerivAt_v p v
+  · epv_hydro_cert SedovFuncsO3.L1.f_fun_hasDerivAt_v p v
+  · epv_hydro_cert SedovFuncsO3.L1.g_fun_hasDerivAt_v p v
+  · epv_hydro_cert SedovFuncsO3.L1.h_fun_hasDerivAt_v p v
 
 theorem l_pos (p : SedovFuncsO3.P) (v : ℝ) (B : Bases p v) : 0 < SedovFuncsO3.L1.l_fun p v := by
-  simp only [epv_leaf]
+  simp only [epv_semi_leaf]
   exact mul_pos (mul_pos (Real.rpow_pos_of_pos B.x1 _) (Real.rpow_pos_of_pos B.x2 _)) (Real.rpow_pos_of_pos B.x4 _)
 theorem g_pos (p : SedovFuncsO3.P) (v : ℝ) (B : Bases p v) : 0 < SedovFuncsO3.L1.g_fun p v := by
-  simp only [epv_leaf]
+  simp only [epv_semi_leaf]
   exact mul_pos (mul_pos (mul_pos (Real.rpow_pos_of_pos B.x1 _) (Real.rpow_pos_of_pos B.x2 _))
     (Real.rpow_pos_of_pos B.x4 _)) (Real.exp_pos _)
 
@@ -241,7 +249,7 @@ theorem h_rel {p : SedovFuncsO3.P} {γ k ω v : ℝ} (hC : O3Consts p γ k ω) (
     (-p.geometry * p.gamma * p.gamp1 * (1 / (2 * p.e_val)) * (1 - p.a_val * v) / (1 / 2 * p.gamp1 - p.a_val * v))
     B.x1 B.x2 B.x4 e1 e2 e4
   have hb : p.b_val ≠ 0 := left_ne_zero_of_mul B.x2.ne'
-  simp only [epv_leaf]
+  simp only [epv_semi_leaf]
   rw [hC.xg2] at key ⊢
   have e5 : (1 : ℝ) - (k + 2 - ω) / 2 * v = 1 - 1 / 2 * (k + 2 - ω) * v := by ring
   rw [e5]
@@ -253,7 +261,7 @@ theorem mass_ode {p : SedovFuncsO3.P} {γ k ω v : ℝ} (hC : O3Consts p γ k ω
     massODEv γ k ω (SedovFuncsO3.L1.l_fun p v) (SedovFuncsO3.L1.f_fun p v) (SedovFuncsO3.L1.g_fun p v)
       (SedovFuncsO3.L1.l_fun_dv p v) (SedovFuncsO3.L1.f_fun_dv p v) (SedovFuncsO3.L1.g_fun_dv p v) = 0 := by
   have B := bases hC S
-  have hF : SedovFuncsO3.L1.f_fun p v = p.a_val * v * SedovFuncsO3.L1.l_fun p v := by simp only [epv_leaf]
+  have hF : SedovFuncsO3.L1.f_fun p v = p.a_val * v * SedovFuncsO3.L1.l_fun p v := by simp only [epv_semi_leaf]
   have hs : 2 / (γ + 1) * (p.a_val * v) = (k + 2 - ω) / 2 * v := by
     rw [hC.a_val]; unfold K.a_val; have := S.hγ; field_simp; ring
   rw [hF, l_dv p v B, f_dv p v B, g_dv p γ v B hC.gamp1 hC.gamma, hC.xg2, hC.omega, hC.geometry,
@@ -266,7 +274,7 @@ theorem energy_ode {p : SedovFuncsO3.P} {γ k ω v : ℝ} (hC : O3Consts p γ k 
       (SedovFuncsO3.L1.h_fun p v) (SedovFuncsO3.L1.l_fun_dv p v) (SedovFuncsO3.L1.f_fun_dv p v)
       (SedovFuncsO3.L1.g_fun_dv p v) (SedovFuncsO3.L1.h_fun_dv p v) = 0 := by
   have B := bases hC S
-  have hF : SedovFuncsO3.L1.f_fun p v = p.a_val * v * SedovFuncsO3.L1.l_fun p v := by simp only [epv_leaf]
+  have hF : SedovFuncsO3.L1.f_fun p v = p.a_val * v * SedovFuncsO3.L1.l_fun p v := by simp only [epv_semi_leaf]
   have hs : 2 / (γ + 1) * (p.a_val * v) = (k + 2 - ω) / 2 * v := by
     rw [hC.a_val]; unfold K.a_val; have := S.hγ; field_simp; ring
   rw [hF, l_dv p v B, f_dv p v B, g_dv p γ v B hC.gamp1 hC.gamma, h_dv p γ v B hC.gamm1 hC.gamp1 hC.gamma,
@@ -279,7 +287,7 @@ theorem mom_ode {p : SedovFuncsO3.P} {γ k ω v : ℝ} (hC : O3Consts p γ k ω)
     momODEv γ k ω (SedovFuncsO3.L1.l_fun p v) (SedovFuncsO3.L1.f_fun p v) (SedovFuncsO3.L1.g_fun p v)
       (SedovFuncsO3.L1.l_fun_dv p v) (SedovFuncsO3.L1.f_fun_dv p v) (SedovFuncsO3.L1.h_fun_dv p v) = 0 := by
   have B := bases hC S
-  have hF : SedovFuncsO3.L1.f_fun p v = p.a_val * v * SedovFuncsO3.L1.l_fun p v := by simp only [epv_leaf]
+  have hF : SedovFuncsO3.L1.f_fun p v = p.a_val * v * SedovFuncsO3.L1.l_fun p v := by simp only [epv_semi_leaf]
   have hs : 2 / (γ + 1) * (p.a_val * v) = (k + 2 - ω) / 2 * v := by
     rw [hC.a_val]; unfold K.a_val; have := S.hγ; field_simp; ring
   have hD2 : p.c_val * v - 1 ≠ 0 := by rw [hC.c_val]; exact S.x2.ne'
@@ -298,7 +306,8 @@ theorem l_dv_pos {p : SedovFuncsO3.P} {γ k ω v : ℝ} (hC : O3Consts p γ k ω
 theorem l_strict (p : SedovFuncsO3.P) (v : ℝ) (B : Bases p v) :
     HasStrictDerivAt (SedovFuncsO3.L1.l_fun p) (SedovFuncsO3.L1.l_fun_dv p v) v := by
   have hc : ContDiffAt ℝ 1 (SedovFuncsO3.L1.l_fun p) v := by
-    unfold SedovFuncsO3.L1.l_fun
+    -- the closed form of the pinned source (bridge lemma), whatever shape the generated definition has
+    rw [(funext (EPV.Bridge.Semi.SedovFuncsO3_L1_l_fun p) : SedovFuncsO3.L1.l_fun p = _)]
     have h1 := B.x1.ne'; have h2 := B.x2.ne'; have h4 := B.x4.ne'
     exact ((ContDiffAt.rpow_const_of_ne (by fun_prop) h1).mul (ContDiffAt.rpow_const_of_ne (by fun_prop) h2)).mul
       (ContDiffAt.rpow_const_of_ne (by fun_prop) h4)
